@@ -187,6 +187,7 @@ pub fn gen_spec(rng: &mut Rng, p: &Profile) -> Spec {
     let mut taken = vec![];
     let names = pick_distinct(rng, SCHEMA_NAMES, nc, &mut taken);
     let mut obj_names: Vec<String> = vec![];
+    let mut struct_names: Vec<String> = vec![];
     for (i, name) in names.iter().enumerate() {
         // references only go backwards unless cycles are allowed
         let refs: Vec<String> = if p.cycles { names.clone() } else { names[..i].to_vec() };
@@ -204,9 +205,11 @@ pub fn gen_spec(rng: &mut Rng, p: &Profile) -> Spec {
                 kind: Kind::Object { props: vec![], required: vec![], addl: Some(Addl::Schema(field_ref(rng, &refs, 1))) },
                 ..Default::default()
             },
-            9 if !refs.is_empty() => {
-                // allOf of a ref and an inline object
-                let target = refs[rng.below(refs.len())].clone();
+            9 if refs.iter().any(|r| struct_names.contains(r)) => {
+                // allOf of a ref and an inline object; the referenced component is itself an object (an instance has to
+                // satisfy every member: allOf of an array or a string with an object has no instances at all)
+                let cands: Vec<&String> = refs.iter().filter(|r| struct_names.contains(*r)).collect();
+                let target = cands[rng.below(cands.len())].clone();
                 let r = SRef::Ref(target.clone());
                 // D: property names of one object, allOf members included, are pairwise distinct after normalisation
                 let taken_names = body_prop_names(&spec, &target);
@@ -233,6 +236,9 @@ pub fn gen_spec(rng: &mut Rng, p: &Profile) -> Spec {
         };
         if matches!(sc.kind, Kind::Object { .. } | Kind::AllOf(_)) || matches!(&sc.kind, Kind::Str{enumeration, ..} if !enumeration.is_empty()) {
             obj_names.push(name.clone());
+        }
+        if matches!(&sc.kind, Kind::Object { addl: None, .. }) || matches!(&sc.kind, Kind::AllOf(l) if l.len() > 1) {
+            struct_names.push(name.clone());
         }
         spec.components.push((name.clone(), sc));
     }
@@ -403,9 +409,28 @@ pub fn gen_spec(rng: &mut Rng, p: &Profile) -> Spec {
                 });
             }
         }
+        let spec_components_view = Spec { components: spec.components.clone(), ..Default::default() };
         if let Some(pi) = spec.paths.iter_mut().find(|pi| pi.path == path) {
-            // inputs already declared on the path item are inherited, not repeated
-            op.params.retain(|q| !pi.params.iter().any(|x| x.name == q.name));
+            // inputs already declared on the path item are inherited, not repeated; D: the names of one operation's
+            // inputs (inherited ones included) stay distinct after normalisation
+            op.params.retain(|q| !pi.params.iter().any(|x| x.name == q.name || norm(&x.name) == norm(&q.name)));
+            let inherited: Vec<String> = pi.params.iter().map(|x| norm(&x.name)).collect();
+            let clash = match &mut op.body {
+                Some(SRef::Inl(b)) => {
+                    if let Kind::Object { props, required, .. } = &mut b.kind {
+                        props.retain(|(k, _)| !inherited.contains(&norm(k)));
+                        required.retain(|r| props.iter().any(|(k, _)| k == r));
+                        props.is_empty()
+                    } else {
+                        false
+                    }
+                }
+                Some(SRef::Ref(n)) => body_prop_names(&spec_components_view, n).iter().any(|k| inherited.contains(k)),
+                None => false,
+            };
+            if clash {
+                op.body = None;
+            }
             pi.ops.push(op);
         } else {
             // sometimes move some parameters to the path item
